@@ -21,6 +21,13 @@ def mk_project(ctx, plans=True, events=False, lock=True):
     # a project whose `.ergo` directory is there but still empty (`mkdir .ergo`, an init cut short): it is the nearest store for everything below it
     os.makedirs(os.path.join(proj, "bare/.ergo"))
     os.makedirs(os.path.join(proj, "bare/w"))
+    # a project whose directory name itself ends in ".ergo" (a checkout called team.ergo), with a sub-directory; and a plain directory of such a
+    # name without a store of its own: only a path component that *is* `.ergo` names a store directory
+    os.makedirs(os.path.join(proj, "team.ergo/src"))
+    tst = cmdrun.Store(ctx.ergo, ctx.go, root=os.path.join(proj, "team.ergo"))
+    tst.exec(["--json", "new", "task"], b'{"title":"team"}')
+    os.makedirs(os.path.join(proj, "notes.ergo"))
+    st.markers = {st.dir: "kept", nst.dir: "inner", ist.dir: "innermost", tst.dir: "team", os.path.join(proj, "bare/.ergo"): None}
     d = st.dir
     data = open(os.path.join(d, "plans.jsonl"), "rb").read()
     if events:
@@ -74,8 +81,10 @@ def snapshot_via(st, cwd, dirargs):
 def discovery(ctx):
     root, proj, st = mk_project(ctx)
     try:
-        cwds = [proj, os.path.join(proj, "sub"), os.path.join(proj, "sub/deep"), os.path.join(proj, "nested/x/y"), os.path.join(proj, "nested"), os.path.join(proj, "bare/w")]
-        targets = cwds + [os.path.join(proj, ".ergo"), os.path.join(proj, "nested/.ergo"), os.path.join(proj, "bare"), os.path.join(proj, "bare/.ergo")]
+        cwds = [proj, os.path.join(proj, "sub"), os.path.join(proj, "sub/deep"), os.path.join(proj, "nested/x/y"), os.path.join(proj, "nested"), os.path.join(proj, "bare/w"),
+                os.path.join(proj, "team.ergo"), os.path.join(proj, "notes.ergo")]
+        targets = cwds + [os.path.join(proj, ".ergo"), os.path.join(proj, "nested/.ergo"), os.path.join(proj, "bare"), os.path.join(proj, "bare/.ergo"),
+                          os.path.join(proj, "team.ergo/src"), os.path.join(proj, "team.ergo/.ergo")]
         for cwd in cwds:
             for target in targets:
                 want_dir = expected_ergo(target)
@@ -92,6 +101,19 @@ def discovery(ctx):
                                       {"trace": trace})
                         return
                     snap = snapshot_via(st, cwd, dirargs)
+                    # every command, not only `where`: the listing is that of the store found (each store holds one task no other has)
+                    if snap[0] == 0 and want_dir in st.markers:
+                        titles = {t["title"] for t in snap[1]}
+                        mine = st.markers[want_dir]
+                        foreign = titles & {m for m in st.markers.values() if m and m != mine}
+                        if foreign or (mine and mine not in titles):
+                            ctx.violation("C18 a command operates on another store than `where` names", "cwd=%s --dir %s: `where` says %s, `list` shows the tasks %s" %
+                                          (cwd, dirargs[1:] or "-", want_dir, sorted(titles)[:5]), {"trace": [{"cwd": cwd, "argv": dirargs + ["--json", "list", "--all"]}]})
+                            return
+                    elif snap[0] != 0 and want_dir:
+                        ctx.violation("C18 a command finds no store where `where` finds one", "cwd=%s --dir %s: `where` says %s, `list` fails: %s" % (cwd, dirargs[1:] or "-", want_dir, snap[1]),
+                                      {"trace": [{"cwd": cwd, "argv": dirargs + ["--json", "list", "--all"]}]})
+                        return
                     if ref is None:
                         ref = snap
                     elif snap != ref:
